@@ -176,6 +176,8 @@ PROVENANCES = {
     "DiHypergraph(DH)": lambda r, n, e: xgi.DiHypergraph(_DH(r, n, e)),
     "DH incremental": lambda r, n, e: _DH(r, n, e),
     "DH add_node_to_edge": lambda r, n, e: _dante(n, e),
+    "DH add_node_to_edge (numpy ids)": lambda r, n, e: _ante_np(r, n, e, True),
+    "add_node_to_edge (numpy ids)": lambda r, n, e: _ante_np(r, n, e, False),
     "gen:random_hypergraph": lambda r, n, e: xgi.random_hypergraph(6, [0.3, 0.1], seed=r.randint(0, 99)),
     "gen:fast_random_hypergraph": lambda r, n, e: xgi.fast_random_hypergraph(6, [0.3, 0.1], seed=r.randint(0, 99)),
     "gen:complete_hypergraph": lambda r, n, e: xgi.complete_hypergraph(4, max_order=2),
@@ -205,6 +207,19 @@ def _dante(n, e):
         for j, x in enumerate(ms):
             DH.add_node_to_edge(i, x, "in" if j % 2 else "out")
     return DH
+
+
+def _ante_np(r, n, e, directed):
+    """edges created by add_node_to_edge under numpy-integer / integer-valued float IDs 0..k-1"""
+    H = xgi.DiHypergraph() if directed else xgi.Hypergraph()
+    ids = list(np.arange(len(e))) if r.random() < 0.6 else [float(i) for i in range(len(e))]
+    for i, (_, ms) in zip(ids, e):
+        for j, x in enumerate(ms):
+            if directed:
+                H.add_node_to_edge(i, x, "in" if j % 2 else "out")
+            else:
+                H.add_node_to_edge(i, x)
+    return H
 
 
 def _bulk(H, eb):
@@ -237,8 +252,12 @@ def gen_addition(rng, H):
             m, i = mk(), rng.choice(cand); return {"call": "add_edge", "members": m, "idx": i}, lambda: H.add_edge(m, idx=i)
         if kind < 0.85:
             eb = [mk() for _ in range(rng.randint(1, 3))]; return {"call": "add_edges_from", "fmt": 1, "ebunch": eb}, lambda: H.add_edges_from(eb)
-        eb = [(mk(), rng.choice(cand)) for _ in range(rng.randint(1, 3))]
-        return {"call": "add_edges_from", "fmt": 2, "ebunch": eb}, lambda: H.add_edges_from(eb)
+        if kind < 0.93:
+            eb = [(mk(), rng.choice(cand)) for _ in range(rng.randint(1, 3))]
+            return {"call": "add_edges_from", "fmt": 2, "ebunch": eb}, lambda: H.add_edges_from(eb)
+        fresh = [c for c in cand if not any(hash(c) == hash(i) and bool(c == i) for i in ids)] or ["fresh"]
+        i, x, d = rng.choice(fresh), rng.choice(pool), rng.choice(["in", "out"])
+        return {"call": "add_node_to_edge", "edge": i, "node": x, "direction": d}, lambda: H.add_node_to_edge(i, x, d)
     if isinstance(H, xgi.SimplicialComplex):
         if kind < 0.4:
             m = members(1, 4); return {"call": "add_simplex", "members": m, "idx": None}, lambda: H.add_simplex(m)
@@ -291,6 +310,8 @@ def exec_addition(H, desc):
                 eb = [((x[0][0], x[0][1]), x[1]) for x in eb]
         return getattr(H, c)(eb)
     if c == "add_node_to_edge":
+        if isinstance(H, xgi.DiHypergraph):
+            return H.add_node_to_edge(desc["edge"], desc["node"], desc.get("direction", "in"))
         return H.add_node_to_edge(desc["edge"], desc["node"])
     raise AssertionError(c)
 
@@ -298,6 +319,7 @@ def exec_addition(H, desc):
 def check_addition(H, desc, thunk=None):
     """perform one addition; returns list of (failure_class, detail)"""
     order0, tab0 = edge_table(H)
+    nodes0 = [repr(n) for n in H.nodes]
     # a simplex that is already present (by member set) is a documented silent no-op, whatever the id says
     present = desc["call"] == "add_simplex" and any(m == sorted(map(repr, set(desc["members"]))) for m, _ in tab0.values())
     with warnings.catch_warnings(record=True) as w:
@@ -343,6 +365,8 @@ def check_addition(H, desc, thunk=None):
             fails.append(("duplicate-id-no-warning", f"{desc['call']}(idx={desc['idx']!r}) on an existing id gave no warning"))
         if (order1, tab1) != (order0, tab0):
             fails.append(("duplicate-id-mutated", f"{desc['call']}(idx={desc['idx']!r}) on an existing id changed the network"))
+        elif not present and [repr(n) for n in H.nodes] != nodes0:
+            fails.append(("duplicate-id-mutated", f"{desc['call']}(idx={desc['idx']!r}) on an existing id changed the node set: {nodes0} -> {[repr(n) for n in H.nodes]}"))
     return fails
 
 
